@@ -15,6 +15,7 @@ import (
 	"go.minekube.com/gate/pkg/edition/java/proxy/tablist"
 	"go.minekube.com/gate/pkg/gate/proto"
 	"reflect"
+	"sync"
 	"time"
 )
 
@@ -26,6 +27,12 @@ type backendTransitionSessionHandler struct {
 	bungeeCordMessageRecorder bungeecord.MessageResponder
 	listenDoneCtx             chan struct{}
 	log                       logr.Logger
+
+	// The request context's watcher and the handling of JoinGame exclude each other:
+	// whoever comes first decides the attempt.
+	decideMu sync.Mutex
+	timedOut bool // the watcher gave the attempt up; a JoinGame that still arrives is ignored
+	joining  bool // JoinGame is being handled; the attempt is no longer subject to the context
 }
 
 func newBackendTransitionSessionHandler(
@@ -56,6 +63,16 @@ func (b *backendTransitionSessionHandler) Activated() {
 			case <-b.listenDoneCtx:
 				return
 			default:
+				b.decideMu.Lock()
+				if b.joining {
+					// JoinGame arrived in time and is being handled (the previous server is
+					// given up by then); failing the request and closing the connection under
+					// it now would leave the player with neither server.
+					b.decideMu.Unlock()
+					return
+				}
+				b.timedOut = true
+				b.decideMu.Unlock()
 				b.requestCtx.result(nil, errors.New(
 					"context deadline exceeded while transitioning player to backend server"))
 				b.serverConn.disconnect()
@@ -160,6 +177,16 @@ func (b *backendTransitionSessionHandler) handlePluginMessage(packet *plugin.Mes
 }
 
 func (b *backendTransitionSessionHandler) handleJoinGame(pc *proto.PacketContext, p *packet.JoinGame) {
+	b.decideMu.Lock()
+	if b.timedOut {
+		// The request has already been failed by the context watcher, which is closing
+		// this connection; the join must not be carried through on it.
+		b.decideMu.Unlock()
+		return
+	}
+	b.joining = true
+	b.decideMu.Unlock()
+
 	smc, ok := b.serverConn.ensureConnected()
 	if !ok {
 		return
